@@ -624,10 +624,21 @@ def run_history(case):
 # ----------------------------------------------------------------------------------------------
 # requests to the Lean driver
 
+def trigger_of(case, t):
+    """the task named in `executed=` of the delayed creator that makes task dict `t`: the creator's own task and, since
+    /repo aca1bdd (the created tasks inherit the placeholder's bad / ignored marks), every sub-task it yields"""
+    if t.get('delayed'):
+        return [t['delayed']['after']]
+    so = t.get('sub_of')
+    if so is not None and (case['tasks'][so].get('delayed') or None):
+        return [case['tasks'][so]['delayed']['after']]
+    return []
+
+
 def model_tasks(case):
     return [{'deps': list(t['deps']), 'targets': list(t['targets']), 'uptodate': [model_utd(u) for u in t['uptodate']],
              'task_dep': list(t['task_dep']), 'setup': list(t['setup']), 'sub_of': t.get('sub_of'),
-             'calc_dep': list(t.get('calc_dep') or []) + ([t['delayed']['after']] if t.get('delayed') else [])}
+             'calc_dep': list(t.get('calc_dep') or []) + trigger_of(case, t)}
             for t in case['tasks']]
 
 
